@@ -448,6 +448,12 @@ def run(prog, chk):
     if memrules.dup_field_correspondence(prog, r7) < 5:
         raise Broken("fewer than 5 duplicated-field stores found")
 
+    r13 = chk.rule("R13-no-stale-statement-parameter", "per function storing values with SET_VALUE_PROPS: every bind of the selected kind's "
+                   "arm is evaluated whenever the arm is, or the statement's bindings are cleared unconditionally between two "
+                   "executions", primary=False, floor=3)
+    if binding_hygiene_rule(prog, r13) < 3:
+        raise Broken("fewer than 3 functions expanding SET_VALUE_PROPS found")
+
     r12 = chk.rule("R12-storing-paths-balanced", "the functions that store a value (set_value, add_packet, an iterator update) return "
                    "with the transaction depth they were entered with: a refusal that rolls back to a savepoint it never opened, or "
                    "leaves one open, undoes or half-applies neighbouring stores (the balance rule of C05 for these functions)",
@@ -713,4 +719,77 @@ def clobber_rule(prog, rule):
                                "the same object (at L%s): the stored attribute is lost" % (lp, a.get("l"), g, c.get("l"), fld, mod[g][fld]))
             else:
                 rule.ok(key, "no later callee overwrites `%s` with a constant" % fld)
+    return n
+
+
+def binding_hygiene_rule(prog, rule):
+    """R13: a statement parameter left unbound keeps whatever the previous execution bound to it.  Per function that stores values
+    with SET_VALUE_PROPS, one of two disciplines must hold: (a) within the expansion every sqlite3_bind_* of the selected
+    kind's arm is evaluated whenever the arm is (the only conditions it depends on are the kind switch and the results of
+    the binds before it), or (b) the statement's bindings are cleared between two executions unconditionally (the clearing
+    call depends only on results of calls, not on the data).  With neither, a value's column shows the previous value's
+    content (an exact number inherits the uncertainty digits of the number stored before it)."""
+    from .. import loops
+    n = 0
+    for fn in prog.all_functions():
+        binds = [(b, i, c) for (b, i, r, c) in fn.calls() if (c.get("callee") or "").startswith("sqlite3_bind_")
+                 and "SET_VALUE_PROPS" in (c.get("ms") or [])]
+        if not binds:
+            continue
+        n += 1
+
+        def data_conditions(bid):
+            """branch blocks the block depends on whose condition contains no call (a pure test of data)"""
+            out = []
+            for tb in fn.blocks.values():
+                if len(tb.succs) != 2:
+                    continue
+                t, f = loops.control_dependents(fn, tb.id)
+                if (bid in t) == (bid in f):
+                    continue
+                cnd = cfgq.cond_of(fn, tb)
+                if cnd is None:
+                    continue
+                if any(isinstance(x, dict) and x.get("k") == "call" for x in walk(cnd)):
+                    continue
+                out.append((tb, cnd))
+            return out
+        cond_binds = []
+        for (b, i, c) in binds:
+            for (tb, cnd) in data_conditions(b.id):
+                # only conditions inside the expansion count (the caller may well store values conditionally)
+                if "SET_VALUE_PROPS" in (cnd.get("ms") or []) or any("SET_VALUE_PROPS" in (x.get("ms") or []) for x in walk(cnd) if isinstance(x, dict)):
+                    cond_binds.append((c, cnd))
+        clears = [(b, i, c) for (b, i, r, c) in fn.calls_to("sqlite3_clear_bindings")]
+        # the statement the expansion binds to: the initialiser of the macro's local `s`
+        stmts = set()
+        for (b2, i2, r2, d) in fn.eval_sites("decl"):
+            if "SET_VALUE_PROPS" in (d.get("ms") or []):
+                for v in d.get("vars", []):
+                    if "sqlite3_stmt" in v.get("t", "") and v.get("init") is not None:
+                        stmts.add(re.split(r"->|\.", show(v["init"]).strip("()"))[-1])
+        uncond_clear = False
+        bind_loops = [lp for lp in loops.natural_loops(fn) if binds[0][0].id in lp.body]
+        bind_loop = min(bind_loops, key=lambda l: len(l.body)) if bind_loops else None
+        for (b, i, c) in clears:
+            if bind_loop is not None and b.id not in bind_loop.body:
+                continue            # cleared once per call, not between the executions of the loop
+            if stmts and c.get("args") and re.split(r"->|\.", show(c["args"][0]).strip("()"))[-1] not in stmts:
+                continue
+            lps = [lp for lp in loops.natural_loops(fn) if b.id in lp.body]
+            inner = min(lps, key=lambda l: len(l.body)) if lps else None
+            dc = [(tb, cnd) for (tb, cnd) in data_conditions(b.id) if inner is None or (tb.id in inner.body and tb.id != inner.header)]
+            if not dc:
+                uncond_clear = True
+        key = "%s:SET_VALUE_PROPS" % fn.name
+        if not cond_binds:
+            rule.ok(key, "%d binds, each evaluated whenever its kind's arm is" % len(binds))
+        elif uncond_clear:
+            rule.ok(key, "a bind depends on the data, but the bindings are cleared unconditionally between executions")
+        else:
+            c, cnd = cond_binds[0]
+            rule.violation(fn.file, fn.name, c.get("l"), "stale-binding:%s" % fn.name,
+                           "`%s` is evaluated only under `%s`, and the statement's bindings are not cleared unconditionally between "
+                           "executions: a value for which the condition fails is stored with what the previous value bound to that "
+                           "parameter" % (show(c)[:60], show(cnd)[:50]))
     return n
